@@ -404,7 +404,7 @@ func ruleLoopVarAddr(r *core.Run, id string, roots ...string) {
 						continue
 					}
 					nBad++
-					r.Violate(id, core.Key(id, r.P.Name(f), "&"+al.Comment), r.P.Pos(st.Pos()), fmt.Sprintf("%s stores the address of %s, a variable re-assigned on every iteration of the enclosing loop (one variable per loop under this module's Go version), into a slice/field inside that loop: all stored pointers alias the last element, so what is later done \"for each\" of them happens to the last one only", r.P.Name(f), al.Comment))
+					r.Violate(id, core.Key(id, r.KeyName(f), "&"+al.Comment), r.P.Pos(st.Pos()), fmt.Sprintf("%s stores the address of %s, a variable re-assigned on every iteration of the enclosing loop (one variable per loop under this module's Go version), into a slice/field inside that loop: all stored pointers alias the last element, so what is later done \"for each\" of them happens to the last one only", r.P.Name(f), al.Comment))
 				}
 			}
 		}
